@@ -14,6 +14,7 @@ warnings.filterwarnings("ignore", category=SyntaxWarning)
 # exact symmetries of the pipeline (translation, atom order): the only differences allowed are float32 rounding of the coordinates
 # handed to the kernel (|x| <= ~20 A -> 2.4e-6 A) and the root finder's absolute x-tolerance (xtol = 1e-5 A in _density.pyx);
 # a radius error of 1e-5 A on radii of 1..8 A changes N_0 = sqrt(4 pi) <r> by <= ~5e-6 relative.  1e-4 leaves a factor 20.
+TOL_PERM = 5e-6       # re-ordering the atoms changes only the order of float32 / float64 sums: measured <= 3e-8 (isolated) and a few 1e-7 (30-atom shells)
 TOL_EXACT = 1e-4
 # rotation: the statement allows "a discretisation error that shrinks as the maximum degree grows" but gives no number.  The caps
 # below are engineering thresholds (NOT derived from the statement): ~3-4x the largest normalised error (desc_err) seen on the
@@ -42,6 +43,8 @@ TEMPLATES = {
     "methanol": ([6, 8, 1, 1, 1, 1], [[0.0, 0.0, 0.0], [1.42, 0.0, 0.0], [-0.36, 1.03, 0.0], [-0.36, -0.51, 0.89], [-0.36, -0.51, -0.89], [1.75, 0.9, 0.0]]),
     "formamide": ([6, 8, 7, 1, 1, 1], [[0.0, 0.0, 0.0], [1.22, 0.0, 0.0], [-0.72, 1.15, 0.0], [-0.55, -0.95, 0.0], [-1.73, 1.12, 0.0], [-0.25, 2.04, 0.0]]),
     "hcl_pair": ([17, 1, 9, 1], [[0.0, 0.0, 0.0], [1.28, 0.0, 0.0], [3.1, 0.3, 0.2], [3.9, 0.6, 0.1]]),
+    # an element without electronegativity-equalisation parameters of its own (the charge model falls back to generic ones): the esp channel must still not depend on atom order
+    "methaneselenol": ([6, 34, 1, 1, 1, 1], [[0.0, 0.0, 0.0], [1.95, 0.0, 0.0], [-0.36, 1.03, 0.0], [-0.36, -0.51, 0.89], [-0.36, -0.51, -0.89], [2.35, 1.40, 0.1]]),
     "h2s": ([16, 1, 1], [[0.0, 0.0, 0.1], [0.0, 0.97, -0.82], [0.0, -0.97, -0.82]]),
 }
 
@@ -102,7 +105,7 @@ def systems(seed, tier):
     """-> (isolated, partitioned): lists of dict(name, Zi, Pi[, Ze, Pe])."""
     rng = np.random.default_rng(seed + 901)
     iso, part = [], []
-    names = list(TEMPLATES) if tier != "quick" else ["water", "acetic_acid", "formamide", "hcl_pair"]
+    names = list(TEMPLATES) if tier != "quick" else ["water", "acetic_acid", "formamide", "hcl_pair", "methaneselenol"]
     for nm in names:
         Z, P = TEMPLATES[nm]
         iso.append({"name": nm, "Zi": np.array(Z), "Pi": np.array(P, dtype=float)})
@@ -453,7 +456,7 @@ def bounded_pose(kind, seed, tier):
                         obs = {"normalised_change": e, "n_invariants": int(len(d0))}
                     except ValueError as ex:
                         e, obs = float("inf"), {"raised_in_moved_pose": repr(ex)}
-                    cap = ROT_CAP[L] if mk == "rigid" else TOL_EXACT
+                    cap = ROT_CAP[L] if mk == "rigid" else (TOL_PERM if mk == "permutation" else TOL_EXACT)
                     if mk == "rigid" and np.isfinite(e) and not explicit:
                         mean_rot.setdefault((L, prop), []).append(e)
                         worst_rot[(L, prop)] = max(worst_rot.get((L, prop), 0.0), e)
